@@ -901,6 +901,35 @@ func RunProxyWrites(seed int64) (runs []PxWriteRun, viols []drv.Violation, err e
 					}
 					envA.b.disarm()
 				}
+				// existence checks in the other key spaces (HTTP HEAD /ac/ with validation off asks for a raw entry, size
+				// unknown): an entry the backend holds is found, one it does not hold is a plain miss - not a panic
+				{
+					// a well-formed ActionResult: a peer serves an action result only if it parses
+					val, _ := proto.Marshal(&pb.ActionResult{ExitCode: 3, StdoutRaw: drv.GenData(rng, 300, 0)})
+					vh := fmtw.Sha(val)
+					absent := fmtw.Sha(append([]byte("absent"), val...))
+					for _, kind := range []cache.EntryKind{cache.AC, cache.RAW} {
+						envA.b.store(kind, vh, val, mode)
+						for _, c := range []struct {
+							hash string
+							want bool
+						}{{vh, true}, {absent, false}} {
+							checks++
+							func() {
+								defer func() {
+									if p := recover(); p != nil {
+										viols = append(viols, drv.Violation{Prop: "C14", What: fmt.Sprintf("%s: existence check of a %s entry the backend %s (size unknown) panics: %v", where, kind,
+											map[bool]string{true: "holds", false: "does not hold"}[c.want], p)})
+									}
+								}()
+								ok, _ := envA.f.Cache.Contains(ctx, kind, c.hash, -1)
+								if ok != c.want {
+									bad("existence check of a %s entry the backend %s answers %v", kind, map[bool]string{true: "holds", false: "does not hold"}[c.want], ok)
+								}
+							}()
+						}
+					}
+				}
 				ents, _ := rec.ListDir(envA.f.Dir)
 				for _, en := range ents {
 					if strings.Contains(en.Path, hash) {
